@@ -6,6 +6,7 @@ import (
 	"fmt"
 	"math"
 	"sort"
+	"strings"
 	"sync"
 
 	"verif/internal/cv"
@@ -567,6 +568,12 @@ func Prop() *fw.Property {
 			"cut tolerance: 1e-9*L while everything up to the cut is straight, otherwise max(1 % of the curved length up to the end of the segment around the cut, 1e-3): canvas measures curved segments approximately and positions later cuts with that ruler",
 			"a requested cut closer than its tolerance to 0 or L may or may not produce a piece boundary (counted as too close to call)",
 			"split values are passed sorted; whether SplitAt may sort the caller's slice is C10's business",
+		},
+		KnownPredicates: map[string]func(*fw.Violation) bool{
+			// the path contains a cubic with an exact cusp (the case string names the menu entries)
+			"cusp": func(v *fw.Violation) bool { return strings.Contains(v.Case, "cusp") },
+			// the path contains the long eccentric rotated arc A3 1 120 1 0
+			"long-eccentric-arc": func(v *fw.Violation) bool { return strings.Contains(v.Case, "arc-rot120-large") },
 		},
 		Families: families,
 	}
